@@ -529,12 +529,14 @@ class C17(CheckBase):
                 lon = -(sg['e_long'] + (fj + self._frac(rng)) * sg['long_inc']) / 3600
                 cls = 'flat-cell'
             method = rng.choice(['bicubic', 'bicubic', 'bilinear'])
+            callform = {'form': rng.choice([None, None, None, 'kw', 'int']), 'num': rng.choice([None, None, None, 'np'])}
             if rng.random() < 0.2:
                 ops.append({'id': j, 'kind': 'tf', 'lat': lat, 'lon': lon, 'method': method, 'fwd': rng.random() < 0.5,
                             'default_args': rng.random() < 0.3, 'cls': cls})
             else:
                 ops.append({'id': j, 'kind': 'q', 'lat': lat, 'lon': lon, 'method': method, 'cls': cls,
                             'rot': 'none' if fault_run else rng.choice(['B', 'B', 'inplace', 'inplace', 'none', 'relevant'])})
+            ops[-1].update(callform)
         faults = []
         if fault_run:
             for _ in range(rng.choice([1, 1, 2])):
@@ -873,11 +875,24 @@ class C17(CheckBase):
         return fn in self.sut_files
 
     def _call(self, op, grid):
+        lat, lon = op['lat'], op['lon']
+        if op.get('num') == 'np':
+            import numpy as np
+            lat, lon = np.float64(lat), np.float64(lon)        # coordinates taken from a caller's numpy table
+        form = op.get('form')
         if op['kind'] == 'tf':
             if op.get('default_args') and op['method'] == 'bicubic' and op['fwd']:
-                return self.tf.ntv2_2d(grid, op['lat'], op['lon'])
-            return self.tf.ntv2_2d(grid, op['lat'], op['lon'], op['fwd'], op['method'])
-        return self.nr.interpolate_ntv2(grid, op['lat'], op['lon'], method=op['method'])
+                return self.tf.ntv2_2d(grid, lat, lon)
+            if form == 'kw':
+                return self.tf.ntv2_2d(ntv2_grid=grid, lat=lat, lon=lon, method=op['method'], forward_tf=op['fwd'])
+            if form == 'int':
+                return self.tf.ntv2_2d(grid, lat, lon, 1 if op['fwd'] else 0, op['method'])
+            return self.tf.ntv2_2d(grid, lat, lon, op['fwd'], op['method'])
+        if form == 'kw':
+            return self.nr.interpolate_ntv2(grid_object=grid, lat=lat, lon=lon, method=op['method'])
+        if form == 'int' and op['method'] == 'bicubic':
+            return self.nr.interpolate_ntv2(grid, lat, lon)
+        return self.nr.interpolate_ntv2(grid, lat, lon, method=op['method'])
 
     def _op_length(self, op, grid):
         """line events of one call made alone, measured in a forked child (nothing is warmed up here)"""
@@ -996,10 +1011,7 @@ class C17(CheckBase):
                 res, status = pre
             else:
                 try:
-                    if op.get('default_args') and method == 'bicubic' and op['fwd']:
-                        res = tf.ntv2_2d(grid, lat, lon)
-                    else:
-                        res = tf.ntv2_2d(grid, lat, lon, op['fwd'], method)
+                    res = self._call(op, grid)
                     status = 'ok'
                 except ValueError as e:
                     res, status = e, 'ValueError'
@@ -1037,7 +1049,7 @@ class C17(CheckBase):
             res, status = pre
         else:
             try:
-                res = nr.interpolate_ntv2(grid, lat, lon, method=method)
+                res = self._call(op, grid)
                 status = 'ok'
             except Exception as e:
                 res, status = e, 'raised'
@@ -1109,7 +1121,7 @@ class C17(CheckBase):
             bdata, _, _ = corrupt_nodes(data, layout, spec, keep_all)
             fs.put(path, bdata)
             try:
-                r2 = nr.interpolate_ntv2(grid, lat, lon, method=method)
+                r2 = self._call(op, grid)
             except Exception:
                 r2 = None
             fs.put(path, data)
@@ -1129,12 +1141,12 @@ class C17(CheckBase):
                 pb = path + '.B'
                 fs.put(pb, bdata)
                 g2 = nr.read_ntv2_file(pb)
-                r2 = nr.interpolate_ntv2(g2, lat, lon, method=method)
+                r2 = self._call(op, g2)
                 fs.remove(pb)
             else:
                 fs.put(path, bdata)
                 try:
-                    r2 = nr.interpolate_ntv2(grid, lat, lon, method=method)
+                    r2 = self._call(op, grid)
                 finally:
                     fs.put(path, data)
             st2 = 'ok'
